@@ -40,23 +40,26 @@ Merge(m, p, d) ==
 Init ==
   /\ man = <<>>
   /\ files = [n \in Names |-> NoFile]
-  /\ last = [op |-> "init", img |-> "", name |-> "", ow |-> FALSE, res |-> "ok"]
+  /\ last = [op |-> "init", img |-> "", name |-> "", ow |-> FALSE, kg |-> FALSE, res |-> "ok"]
 
-Endorse(img, name, ow) ==
+\* kg: the run was told to keep going past recoverable errors.  An existing file without overwrite
+\* permission is not one of those: the run is refused all the same, and the manifest never changes
+\* unless the file it names was written by this run.
+Endorse(img, name, ow, kg) ==
   IF files[name] # NoFile /\ ~ow
     THEN /\ UNCHANGED <<man, files>>
-         /\ last' = [op |-> "endorse", img |-> img, name |-> name, ow |-> ow, res |-> "err"]
+         /\ last' = [op |-> "endorse", img |-> img, name |-> name, ow |-> ow, kg |-> kg, res |-> "err"]
     ELSE /\ files' = [files EXCEPT ![name] = img]
          /\ man' = Merge(man, name, img)
-         /\ last' = [op |-> "endorse", img |-> img, name |-> name, ow |-> ow, res |-> "ok"]
+         /\ last' = [op |-> "endorse", img |-> img, name |-> name, ow |-> ow, kg |-> kg, res |-> "ok"]
 
-Snapshot(img, ow) ==
+Snapshot(img, ow, kg) ==
   /\ UNCHANGED <<man, files>>
-  /\ last' = [op |-> "snapshot", img |-> img, name |-> "", ow |-> ow, res |-> "ok"]
+  /\ last' = [op |-> "snapshot", img |-> img, name |-> "", ow |-> ow, kg |-> kg, res |-> "ok"]
 
 Next ==
-  \/ \E img \in Images, name \in Names, ow \in BOOLEAN : Endorse(img, name, ow)
-  \/ \E img \in Images, ow \in BOOLEAN : Snapshot(img, ow)
+  \/ \E img \in Images, name \in Names, ow \in BOOLEAN, kg \in BOOLEAN : Endorse(img, name, ow, kg)
+  \/ \E img \in Images, ow \in BOOLEAN, kg \in BOOLEAN : Snapshot(img, ow, kg)
 
 Spec == Init /\ [][Next]_vars
 
